@@ -171,7 +171,7 @@ pub mod fs {
         #[verifier::external_body]
         pub fn new() -> (r: DirBuilder) ensures r@ == false { unimplemented!() }
         #[verifier::external_body]
-        pub fn recursive(&mut self, rec: bool) -> (r: &mut DirBuilder) ensures final(self)@ == rec, *r == *final(self), *final(r) == *final(self) { unimplemented!() }
+        pub fn recursive(&mut self, rec: bool) -> (r: &mut DirBuilder) ensures r@ == rec, *final(r) == *final(self) { unimplemented!() }
     }
 
     // ---- writing -------------------------------------------------------------------------
@@ -182,15 +182,15 @@ pub mod fs {
         #[verifier::external_body]
         pub fn new() -> (r: OpenOptions) ensures r@ == (OpenMode { read: false, write: false, append: false, create: false, truncate: false }) { unimplemented!() }
         #[verifier::external_body]
-        pub fn read(&mut self, b: bool) -> (r: &mut OpenOptions) ensures final(self)@ == (OpenMode { read: b, ..old(self)@ }), *r == *final(self), *final(r) == *final(self) { unimplemented!() }
+        pub fn read(&mut self, b: bool) -> (r: &mut OpenOptions) ensures r@ == (OpenMode { read: b, ..old(self)@ }), *final(r) == *final(self) { unimplemented!() }
         #[verifier::external_body]
-        pub fn write(&mut self, b: bool) -> (r: &mut OpenOptions) ensures final(self)@ == (OpenMode { write: b, ..old(self)@ }), *r == *final(self), *final(r) == *final(self) { unimplemented!() }
+        pub fn write(&mut self, b: bool) -> (r: &mut OpenOptions) ensures r@ == (OpenMode { write: b, ..old(self)@ }), *final(r) == *final(self) { unimplemented!() }
         #[verifier::external_body]
-        pub fn append(&mut self, b: bool) -> (r: &mut OpenOptions) ensures final(self)@ == (OpenMode { append: b, ..old(self)@ }), *r == *final(self), *final(r) == *final(self) { unimplemented!() }
+        pub fn append(&mut self, b: bool) -> (r: &mut OpenOptions) ensures r@ == (OpenMode { append: b, ..old(self)@ }), *final(r) == *final(self) { unimplemented!() }
         #[verifier::external_body]
-        pub fn create(&mut self, b: bool) -> (r: &mut OpenOptions) ensures final(self)@ == (OpenMode { create: b, ..old(self)@ }), *r == *final(self), *final(r) == *final(self) { unimplemented!() }
+        pub fn create(&mut self, b: bool) -> (r: &mut OpenOptions) ensures r@ == (OpenMode { create: b, ..old(self)@ }), *final(r) == *final(self) { unimplemented!() }
         #[verifier::external_body]
-        pub fn truncate(&mut self, b: bool) -> (r: &mut OpenOptions) ensures final(self)@ == (OpenMode { truncate: b, ..old(self)@ }), *r == *final(self), *final(r) == *final(self) { unimplemented!() }
+        pub fn truncate(&mut self, b: bool) -> (r: &mut OpenOptions) ensures r@ == (OpenMode { truncate: b, ..old(self)@ }), *final(r) == *final(self) { unimplemented!() }
         /// open(2).  With `create` a missing file is created empty (its parent directory must
         /// exist); with `truncate` an existing file is emptied; nothing else changes.
         #[verifier::external_body]
@@ -237,8 +237,8 @@ pub mod fs {
         &&& hist_ext(pre, post)
         &&& (world_wf(pre) ==> world_wf(post))
         // every intermediate state holds a prefix of what was being written (a torn write)
-        &&& forall|i: int| pre.hist.len() <= i < post.hist.len() ==> exists|j: int| 0 <= j <= k &&
-              #[trigger] post.hist[i] == (Fs { files: pre.fs.files.insert(f0.path, written(f0, pre.fs.files[f0.path], buf.subrange(0, j))), ..pre.fs })
+        &&& forall|i: int| #![trigger post.hist[i]] pre.hist.len() <= i < post.hist.len() ==> exists|j: int| 0 <= j <= k &&
+              post.hist[i] == (Fs { files: pre.fs.files.insert(f0.path, written(f0, pre.fs.files[f0.path], #[trigger] buf.subrange(0, j))), ..pre.fs })
     }
 
     impl io::Write for File {
